@@ -521,6 +521,19 @@ func runC16(t *testing.T, sc *Scenario) Result {
 			res.Violate("reply-bytes-differ", "agent", fmt.Sprintf("connection %s -> %s: the service wrote %d bytes, %d came back to the agent tagged with its addresses (%q... vs %q...)", raddr, laddr, len(wrote), len(back), short(string(wrote), 40), short(string(back), 40)))
 			return res
 		}
+		if disconnected && len(mine) > 1 && !bytes.HasPrefix(wrote, back) {
+			// (see above: the reply streams of successive connections on one address pair may mix; after a disconnect
+			// each one may also be cut short) - what arrived must be an interleaving of prefixes of the streams
+			if len(mine) == 2 && len(back) <= 6000 {
+				if isMergeOfPrefixes(back, mine[0].Data, mine[1].Data) {
+					res.probe("overlapping-re-announcements", 1)
+					back = nil
+				}
+			} else {
+				res.probe("overlapping-re-announcements-not-judged", 1)
+				back = nil
+			}
+		}
 		if disconnected && !bytes.HasPrefix(wrote, back) {
 			res.Violate("reply-bytes-differ", "agent", fmt.Sprintf("connection %s -> %s: bytes tagged with its addresses are not a prefix of what the service wrote", raddr, laddr))
 			return res
@@ -592,4 +605,27 @@ func isSubsequence(sub, s []byte) bool {
 		}
 	}
 	return i == len(sub)
+}
+
+// isMergeOfPrefixes: s is an interleaving of a prefix of a and a prefix of b (each in its own order).
+func isMergeOfPrefixes(s, a, b []byte) bool {
+	// reach[i] = set of j such that s[:i+j] can be formed from a[:i] and b[:j]; sweep by total length
+	cur := map[[2]int]bool{{0, 0}: true}
+	for k := 0; k < len(s); k++ {
+		next := map[[2]int]bool{}
+		for st := range cur {
+			i, j := st[0], st[1]
+			if i < len(a) && a[i] == s[k] {
+				next[[2]int{i + 1, j}] = true
+			}
+			if j < len(b) && b[j] == s[k] {
+				next[[2]int{i, j + 1}] = true
+			}
+		}
+		if len(next) == 0 {
+			return false
+		}
+		cur = next
+	}
+	return true
 }
